@@ -60,6 +60,40 @@ theorem returns_eq (adv : List α) (ss : List (Step α)) (t : ℕ) (h1 : t < adv
     (returnsCol adv ss)[t]'(by simp [returnsCol]; omega) = adv[t] + ss[t].v := by
   simp [returnsCol]
 
+/-- **returns are the TD(λ) targets**: with `R_t = advantage_t + value_t` (what `compute_returns_and_advantage` stores in
+`returns`), every step satisfies the λ-return recursion
+`R_t = r_t + γ · nnt_t · ((1 − λ) · V_{t+1} + λ · R_{t+1})`, where for the last step of the rollout `V_{t+1}` is the supplied
+last value and `R_{t+1}` is that same last value (the bootstrap), and `nnt_t` masks everything behind an episode end.
+(All `γ`, `λ`, all value/reward/start patterns, any horizon, any commutative ring.) -/
+theorem returns_td_lambda (γ lam lastV lastNnt : α) (s : Step α) (rest : List (Step α)) :
+    (gaeCol γ lam lastV lastNnt (s :: rest)).headD 0 + s.v =
+      s.r + γ * (nextOf lastV lastNnt rest).2 *
+        ((1 - lam) * (nextOf lastV lastNnt rest).1 +
+          lam * ((nextOf lastV lastNnt rest).1 + (gaeCol γ lam lastV lastNnt rest).headD 0)) := by
+  simp only [gaeCol, List.headD_cons, Rollout.delta]
+  ring
+
+/-- … and for an interior step `V_{t+1} + A_{t+1}` is exactly the stored return of step `t + 1` -/
+theorem returns_td_lambda_next (γ lam lastV lastNnt : α) (s' : Step α) (rest : List (Step α)) :
+    (nextOf lastV lastNnt (s' :: rest)).1 + (gaeCol γ lam lastV lastNnt (s' :: rest)).headD 0 =
+      (returnsCol (gaeCol γ lam lastV lastNnt (s' :: rest)) (s' :: rest)).headD 0 := by
+  simp [nextOf, gaeCol, returnsCol, add_comm]
+
+/-- λ = 1: the return is the discounted Monte-Carlo sum bootstrapped with the last value (one unfolding) -/
+theorem returns_lambda_one (γ lastV lastNnt : α) (s : Step α) (rest : List (Step α)) :
+    (gaeCol γ 1 lastV lastNnt (s :: rest)).headD 0 + s.v =
+      s.r + γ * (nextOf lastV lastNnt rest).2 *
+        ((nextOf lastV lastNnt rest).1 + (gaeCol γ 1 lastV lastNnt rest).headD 0) := by
+  have := returns_td_lambda γ 1 lastV lastNnt s rest
+  rw [this]; ring
+
+/-- λ = 0: the return is the one-step TD target `r + γ · nnt · V_{t+1}` -/
+theorem returns_lambda_zero (γ lastV lastNnt : α) (s : Step α) (rest : List (Step α)) :
+    (gaeCol γ 0 lastV lastNnt (s :: rest)).headD 0 + s.v =
+      s.r + γ * (nextOf lastV lastNnt rest).2 * (nextOf lastV lastNnt rest).1 := by
+  have := returns_td_lambda γ 0 lastV lastNnt s rest
+  rw [this]; ring
+
 /-- The advantage list has one entry per step. -/
 theorem gae_length (γ lam lastV lastNnt : α) (ss : List (Step α)) :
     (gaeCol γ lam lastV lastNnt ss).length = ss.length :=
